@@ -434,7 +434,7 @@ YEAR_EDGES = [1, 2, 99, 100, 999, 1000, 1582, 1676, 1677, 1678, 1899, 1969, 1970
 # row counts at and around sizes where chunked / bulk code paths switch
 ROW_LADDER_QUICK = [64, 255, 256, 257, 1024, 1025, 2048, 3072, 4097, 8193]
 ROW_LADDER_FULL = [60, 63, 64, 65, 127, 128, 129, 255, 256, 257, 1000, 1023, 1024, 1025, 2047, 2048, 2049, 3072, 4095, 4096,
-                   4097, 5120, 8191, 8192, 8193, 20000]
+                   4097, 5120, 8191, 8192, 8193, 30005]
 
 
 def ladder_spec(rng, n_row):
@@ -462,14 +462,15 @@ def ladder_spec(rng, n_row):
 
 def gen_spec(rng, allow_nat=True):
     """a well-formed table as plain Python data: name, dests, [(colname, unit, kind, values)]"""
-    n_col = rng.choice([0, 1, 1, 2, 2, 3, 4, 6, 9, 14])
-    n_row = rng.choice([0, 1, 1, 2, 3, 7, 23, 40])
+    n_col = rng.choice([0, 1, 1, 2, 2, 3, 4, 6, 9, 14] + ([25, 40] if rng.random() < 0.08 else []))
+    n_row = rng.choice([0, 1, 1, 2, 3, 7, 23, 40] if n_col <= 14 else [0, 1, 2, 3])
+    big = rng.random() < 0.08                      # larger rungs: names of 40 / 100 characters, texts of 300 / 2000
     while True:
-        name = rand_str(rng, NAME_ALPHA, 0, 6)
+        name = rand_str(rng, NAME_ALPHA, 0, 6) if not big else rand_str(rng, NAME_ALPHA, 40, 100)
         if not name.endswith("*"):
             break
     dests = []
-    for _ in range(rng.choice([1, 1, 2, 3])):
+    for _ in range(rng.choice([1, 1, 2, 3, 6, 9] if rng.random() < 0.3 else [1, 1, 2, 3])):
         while True:
             d = rand_str(rng, ["a", "b", "all", "é", "_", "1", "-", "*", "x", ":", ";", "漢"], 1, 3)
             if d and d not in dests and not any(c in SPACES for c in d):
@@ -477,7 +478,8 @@ def gen_spec(rng, allow_nat=True):
                 break
     names = []
     while len(names) < n_col:
-        nm = rand_str(rng, NAME_ALPHA, 1, 5).strip(SPACES)
+        nm = (rand_str(rng, NAME_ALPHA, 1, 5) if not (big and rng.random() < 0.4) else
+              rand_str(rng, NAME_ALPHA, 40, 100)).strip(SPACES)
         if nm and nm not in names:
             names.append(nm)
     # column names that differ only in letter case / only after Unicode case folding are different names
@@ -487,7 +489,11 @@ def gen_spec(rng, allow_nat=True):
             names[0], names[1] = pair
     cols = []
     for nm in names:
-        kind = rng.choice(["text", "onoff", "datetime", "num", "num", "int", "xint", "xfloat", "xbool", "xstr"])
+        kind = rng.choice(["text", "onoff", "datetime", "num", "num", "int", "xint", "xfloat", "xbool", "xstr", "cat"])
+        if kind == "cat":       # a text column held as a pandas categorical: its values are the categories' texts
+            unit, vals = "text", [rng.choice(["x", "y", "é", "", "a b"]) for _ in range(n_row)]
+            cols.append((nm, unit, kind, vals))
+            continue
         if kind in ("xint", "xfloat", "xbool", "xstr"):
             # pandas nullable / string extension dtypes, with and without pd.NA (None here)
             na = rng.random() < 0.5
@@ -503,7 +509,8 @@ def gen_spec(rng, allow_nat=True):
                 unit, vals = "text", [maybe(rng.choice(TEXT_SPELL)) for _ in range(n_row)]
         elif kind == "text":
             unit, vals = "text", [rng.choice(TEXT_SPELL) if rng.random() < 0.5 else
-                                  rand_str(rng, TEXT_ALPHA, 0, 6 if rng.random() < 0.9 else 80) for _ in range(n_row)]
+                                  rand_str(rng, TEXT_ALPHA, 0, 6 if rng.random() < 0.9 else (rng.choice([80, 80, 300, 2000]) if n_row <= 7 else 80))
+                                  for _ in range(n_row)]
         elif kind == "onoff":
             unit, vals = "onoff", [rng.random() < 0.5 for _ in range(n_row)]
         elif kind == "datetime":
@@ -557,6 +564,8 @@ def build_table(rng, spec):
             data[nm] = np.array(vals, dtype=bool)
         elif kind == "int":
             data[nm] = np.array(vals, dtype="int64")
+        elif kind == "cat":
+            data[nm] = pd.Categorical(vals)
         elif kind in ("xint", "xfloat", "xbool", "xstr"):
             data[nm] = pd.array(vals, dtype={"xint": "Int64", "xfloat": "Float64", "xbool": "boolean", "xstr": "string"}[kind])
         elif kind == "datetime":
@@ -890,7 +899,7 @@ def run(tier, seed, model_ok, translator, search=False):
             model({"op": "to_json", "v": pv}, case, impl, "to_json_serializable")
 
     # (b) well-formed tables
-    n_b = 4500 if thorough else 650
+    n_b = 4000 if thorough else 500
     for i in range(n_b):
         spec = gen_spec(rng)
         case = {"seed": seed, "stream": "b", "index": i, "table": spec_case(spec)}
@@ -987,7 +996,7 @@ def run(tier, seed, model_ok, translator, search=False):
 
     # (t) JSON texts: the fixed list of edge cases, random defects in real dumps output, nested random values
     texts = [(x, "listed") for x in BAD_TEXTS]
-    n_t = 2000 if thorough else 350
+    n_t = 2000 if thorough else 280
     for i in range(n_t):
         if i % 3 == 0:
             base = json.dumps(rand_json(rng, 3))
